@@ -175,6 +175,17 @@ Section History.
     rewrite IH. eapply ureal_decl_slots; eauto.
   Qed.
 
+  Lemma kept_repr_effect s i : objs_kept s (fst (repr_effect N s i)).
+  Proof.
+    unfold repr_effect. destruct (get_real N s i) as [[[j o] c]|e] eqn:Eg; [|apply objs_kept_refl].
+    pose proof (get_real_slot _ _ _ _ _ Eg) as Hslot.
+    destruct (prop_u N s o c) as [[u c1]|e]; [|apply objs_kept_refl].
+    assert (K1 : objs_kept s (set_cache N s j o c1)) by (eapply kept_set_cache; exact Hslot).
+    destruct (prop_df N (set_cache N s j o c1) o c1) as [[d c2]|e]; cbn [fst]; [|exact K1].
+    eapply objs_kept_trans; [exact K1|].
+    eapply kept_set_cache. unfold set_cache; cbn [s_slots]. rewrite nth_set_nth, Nat.eqb_refl, Hslot. reflexivity.
+  Qed.
+
   (* ---------- the theorem: no operation modifies an existing uncertain number ---------- *)
   Theorem step_keeps_objects s o : objs_kept s (fst (step N s o)).
   Proof.
@@ -241,8 +252,15 @@ Section History.
     - (* OpSetCorr *)
       destruct (get_real N s a) as [[[ja oa] c]|e], (get_real N s b) as [[[jb ob] c']|e'];
         try apply kept_push.
-      destruct (set_correlation N s r oa ob) as [s'|e] eqn:E; cbn [fst]; [|apply kept_push].
-      eapply objs_kept_trans; [apply kept_same_slots; eapply set_correlation_slots; eauto | apply kept_push].
+      destruct (set_correlation N s r oa ob) as [s'|e] eqn:E; cbn [fst].
+      + eapply objs_kept_trans; [apply kept_same_slots; eapply set_correlation_slots; eauto | apply kept_push].
+      + destruct e; try apply kept_push.
+        pose proof (kept_repr_effect s a) as K1.
+        destruct (repr_effect N s a) as [s1 [e1|]] eqn:E1; cbn [fst] in K1.
+        * eapply objs_kept_trans; [exact K1 | apply kept_push].
+        * pose proof (kept_repr_effect s1 b) as K2.
+          destruct (repr_effect N s1 b) as [s2 [e2|]] eqn:E2; cbn [fst] in K2;
+            (eapply objs_kept_trans; [exact K1 | eapply objs_kept_trans; [exact K2 | apply kept_push]]).
     - (* OpRead *)
       destruct at_.
       + destruct (get_real N s a) as [[[ja oa] c]|e]; apply kept_push.
@@ -256,7 +274,11 @@ Section History.
         destruct (prop_df N s oa c) as [[u c1]|e]; [|apply kept_push]. cbn [fst].
         eapply objs_kept_trans; [eapply kept_set_cache; eapply get_real_slot; eauto | apply kept_push].
     - destruct (get_real N s y) as [[[jy oy] c]|e], (get_real N s x) as [[[jx ox] c']|e']; try apply kept_push.
-      destruct (sensitivity N s oy ox); apply kept_push.
+      destruct (sensitivity N s oy ox) as [v|e]; [apply kept_push|].
+      destruct e; try apply kept_push.
+      pose proof (kept_repr_effect s x) as K1.
+      destruct (repr_effect N s x) as [s1 [e1|]]; cbn [fst] in K1;
+        (eapply objs_kept_trans; [exact K1 | apply kept_push]).
     - destruct (get_real N s y) as [[[jy oy] c]|e], (get_real N s x) as [[[jx ox] c']|e']; try apply kept_push.
       destruct (u_component N s oy ox); apply kept_push.
     - destruct (get_real N s a) as [[[ja oa] c]|e], (get_real N s b) as [[[jb ob] c']|e']; try apply kept_push.
